@@ -81,6 +81,19 @@ CLAIMED = {
          "Hash-order dependence is only sampled (fresh RandomState per map / per process), not enumerated.",
     technique="TLA+ interleaving model checked by TLC; TLC-generated schedules replayed via an id gap injector; trace validation of real threads",
     design="4/C07"),
+ "C13": dict(
+    category="model_checking",
+    text="PaintTraverse.tla models the COLRv1 traversal (tortoise-and-hare decycler, depth limit, two-pass PaintGlyph "
+         "with the collecting painter stack, early returns, the client's cache callback); TLC checks balance on "
+         "success, named errors for cyclic/too-deep graphs and a work bound on every graph of exhaustive small "
+         "families and on chains up to 66 nodes; every graph is built into a real COLR v1 table, painted with a "
+         "recording ColorPainter, and the observed result class, callback stream and paint-node visit count (hook "
+         "H5) are judged by PaintTrace in TLC. The model predicts the real stream and visit count exactly on the "
+         "current tree (reported as drift, not used as an alarm).",
+    note="Trusted: TLC, the harness's COLR builder (write-fonts), hook H5. One representative per paint kind; "
+         "<= 4 nodes exhaustively. Found and fixed: exponential re-traversal of nested PaintGlyph (058f9ae).",
+    technique="TLA+ traversal model checked by TLC; exhaustive graph enumeration replayed on ColorGlyph::paint; trace validation of callbacks and visit counts",
+    design="4/C13"),
 }
 
 NOT_APPLICABLE = {
@@ -96,6 +109,7 @@ def main():
     try:
         out = subprocess.run(["git", "-C", "/repo", "log", "--format=%H %s"], stdout=subprocess.PIPE, text=True).stdout
         hooks = [l.split()[0] for l in out.splitlines() if "verif hook" in l]
+        fixes = [l.split()[0] for l in out.splitlines() if l.split(" ", 1)[1].startswith("fix:")]
     except Exception:
         pass
     checks = []
